@@ -125,7 +125,7 @@ def doRun (j : Json) : Except String Json := do
   let fsl ← (← objPairs (← j.getObjVal? "fs")).mapM fun (k, v) => do pure (k, ← nodeOfJson v)
   let (i, vals, rest) := getoptsParse "d:o:cr" args
   let ρ : Rho := { cwd := cwd, scriptDir := sd, env := lookupStr env, tok := fun k => vals.getD k "", rest := rest }
-  let fs₀ : FS := fun p => match fsl.lookup (renderPath ρ p) with | some n => n | none => .absent
+  let fs₀ : FS := ⟨fun p => match fsl.lookup (renderPath ρ p) with | some n => n | none => .absent⟩
   let o : Oracle :=
     { status := fun idx _ => match faults.lookup idx with | some s => s | none => 0,
       q := fun q => match q with
